@@ -172,6 +172,33 @@ pub fn sym(args: &[String]) {
             }
         }
     }
+    // ---- Radau's first retries under duplication: an oversized first step is rejected a few times, so the refined error
+    // estimate of a first / retried step decides the first accepted step; its end point must not depend on the number of
+    // copies (compared to 1e-9: nothing quantised has happened yet, only the RMS norms enter)
+    for case in 0..(cases / 4).max(8) {
+        // nonlinear problems only: on a linear problem with the exact Jacobian the first Newton iteration is exact, the
+        // later increments are rounding noise and the iteration count (which enters the step-size factor) flips with it
+        let kind = *rng.pick(&[Kind::Logistic, Kind::Riccati, Kind::VdP, Kind::Mixed]);
+        let span = rng.range(1.0, 3.0);
+        let xend = if rng.chance(0.3) { -span } else { span };
+        let rtol = 10f64.powf(-rng.range(2.0, 6.0));
+        let first = xend * rng.range(0.3, 1.0);
+        let s = Setup { kind, method: Method::RADAU, x0: 0.0, xend, rtol, atol: rtol * 1e-2, first: Some(first), maxstep: None, user_jac: true };
+        let m = [2usize, 3, 4, 7, 16][rng.below(5)];
+        let p1 = Prob { user_jac: true, ..Prob::new(kind) };
+        let pm = Prob { user_jac: true, copies: m, ..Prob::new(kind) };
+        let r1 = catch_unwind(AssertUnwindSafe(|| solve_ivp(&p1, s.x0, s.xend, &p1.y0(), opts(&s, s.rtol.into(), s.atol.into()))));
+        let rm = catch_unwind(AssertUnwindSafe(|| solve_ivp(&pm, s.x0, s.xend, &pm.y0(), opts(&s, s.rtol.into(), s.atol.into()))));
+        let mut why = String::new();
+        let mut extra = format!("\"m\":{},", m);
+        if let (Ok(Ok(r1)), Ok(Ok(rm))) = (r1, rm) {
+            extra += &format!("\"status\":\"{:?}\",\"nrejct\":{},", r1.status, r1.nrejct);
+            if r1.t.len() > 1 && rm.t.len() > 1 {
+                for q in 1..r1.t.len().min(rm.t.len()).min(4) { let (a, b) = (rm.t[q], r1.t[q]); if (a - b).abs() > 1e-9 * b.abs() { why = format!("{} copies, first_step {}: accepted step {} ends at {} instead of {}", m, first, q, a, b); break; } }
+            } else if r1.t.len() != rm.t.len() { why = format!("{} copies: {} samples instead of {}", m, rm.t.len(), r1.t.len()); }
+        }
+        row("sy", 800000 + case, "copies-first-retry", kind, Method::RADAU, "c13-copies-first-retry", &why, &extra);
+    }
     // ---- slow start: 0.01 |y0| / |f0| exceeds the span, so hinit's clamp of its first guess decides where the probe of the
     // second-derivative estimate is taken; the right-hand side depends on time, so the probe point matters
     {
@@ -406,6 +433,29 @@ pub fn mass(args: &[String]) {
                 }
             }
             r15(case, "dae-index1", Method::RADAU, "c15-dae", &why, &extra);
+        }
+        // (f) the documented default of the DAE partition: `nind1` omitted is inferred as n - nind2 - nind3, so the run is
+        // the one with `nind1` given, bit for bit (low-level builder and Options path)
+        if n >= 3 {
+            let nind3 = 1 + rng.below(n - 2);
+            let nind2 = rng.below(n - nind3);
+            let nind1 = n - nind2 - nind3;
+            let a = Band { user_jac, count: 0.into(), mass: None, n, lo: lo.clone(), di: di.clone(), up: up.clone() };
+            let run = |given: bool| {
+                let mut rec = Recorder::new();
+                let b = ivp::methods::RADAU::builder().mass_storage(MatrixStorage::Identity).maybe_nind1(if given { Some(nind1) } else { None })
+                    .maybe_nind2(if nind2 > 0 { Some(nind2) } else { None }).nind3(nind3).build();
+                let r = catch_unwind(AssertUnwindSafe(|| b.solve(&a, 0.0, &y0, xend, rtol.into(), atol.into(), Some(&mut rec))));
+                match r { Ok(Ok(res)) => Some((res.status, rec.cbs.iter().map(|c| (c.x, c.y.clone())).collect::<Vec<_>>())), _ => None }
+            };
+            let why = match (run(true), run(false)) {
+                (Some(g), Some(i)) => if g.0 != i.0 || g.1.len() != i.1.len() || g.1.iter().zip(i.1.iter()).any(|(p, q)| p.0 != q.0 || !bits_eq(&p.1, &q.1)) { format!("nind2 = {}, nind3 = {}: with nind1 omitted the run ends {:?} after {} steps (last t {:?}); with nind1 = {} given it ends {:?} after {} steps", nind2, nind3, i.0, i.1.len(), i.1.last().map(|c| c.0), nind1, g.0, g.1.len()) } else { String::new() },
+                _ => "run fails".into(),
+            };
+            r15(case, "partition-default", Method::RADAU, "c15-partition-default", &why, &format!("{}\"nind2\":{},\"nind3\":{},", extra, nind2, nind3));
+            let opt = |given: bool| { let mut o = Options::builder().method(Method::RADAU).rtol(rtol).atol(atol).build(); o.nind1 = if given { Some(nind1) } else { None }; o.nind2 = if nind2 > 0 { Some(nind2) } else { None }; o.nind3 = Some(nind3); catch_unwind(AssertUnwindSafe(|| solve_ivp(&a, 0.0, xend, &y0, o))).ok().and_then(|r| r.ok()) };
+            let why = match (opt(true), opt(false)) { (Some(g), Some(i)) => if g.status != i.status || !same_traj(&g, &i) { format!("Options path, nind2 = {}, nind3 = {}: nind1 omitted gives {:?} with {} samples, nind1 = {} gives {:?} with {}", nind2, nind3, i.status, i.t.len(), nind1, g.status, g.t.len()) } else { String::new() }, _ => "run fails".into() };
+            r15(case, "partition-default-options", Method::RADAU, "c15-partition-default", &why, &format!("{}\"nind2\":{},\"nind3\":{},", extra, nind2, nind3));
         }
     }
 }
